@@ -1126,8 +1126,14 @@ def run(ctx):
         for k in range(0, 4):
             for gl in itertools.product(gt_names, repeat=k):
                 items.append((gl, pr_names, thresholds, variants))
+        # a ground-truth instance with NO visible node (an empty instance object in the labels): it can never be matched and
+        # must be accounted for as missed
+        for k in (1, 2) if not thorough else (1, 2, 3):
+            for gl in itertools.product(gt_names + ["m5"], repeat=k):
+                if "m5" in gl:
+                    items.append((gl, pr_names, thresholds, variants))
         ctx.bounds["match_instances"] = {
-            "gt_instances": "0..3 from " + ",".join(gt_names),
+            "gt_instances": "0..3 from " + ",".join(gt_names) + "; lists of <= 2 (thorough 3) that include the all-NaN pose m5",
             "predicted_instances": "0..3 from " + ",".join(pr_names),
             "scores": "every weak ordering (ties included)",
             "thresholds": thresholds,
